@@ -2,4 +2,12 @@
 # usage: check.sh <property> <quick|thorough>
 cd "$(dirname "$0")"
 [ -x bin/cdlint ] || ./setup.sh >/dev/null 2>&1 || { echo "VIOLATION property=$1 replay=- kind=checker (setup failed)"; exit 1; }
-exec bin/cdlint -prop "$1" -tier "${2:-quick}" -repo /repo -evidence "evidence/$1.json"
+# fail closed when the exploration does not terminate (unchanged tree: < 20 s quick, < 15 min thorough)
+T=600; [ "${2:-quick}" = thorough ] && T=3600
+timeout -k 5 $T bin/cdlint -prop "$1" -tier "${2:-quick}" -repo /repo -evidence "evidence/$1.json"
+rc=$?
+if [ $rc -eq 124 ] || [ $rc -eq 137 ]; then
+  echo "VIOLATION property=$1 replay=- kind=checker (analysis did not terminate within ${T}s: undecided, failing closed)"
+  exit 1
+fi
+exit $rc
